@@ -2123,7 +2123,19 @@ impl fmt::Display for Group<'_> {
       }
 
       if self.group_choices.len() <= 2 {
-        let _ = write!(group_str, "// {} ", gc_str);
+        let _ = write!(group_str, "// {}", gc_str);
+
+        // a comment at the end of the choice keeps its line break, or it
+        // would swallow the closing delimiter
+        #[cfg(feature = "ast-comments")]
+        if gc.ends_in_open_comment() {
+          group_str.push('\n');
+        } else {
+          group_str.push(' ');
+        }
+
+        #[cfg(not(feature = "ast-comments"))]
+        group_str.push(' ');
       } else {
         let _ = writeln!(group_str, "\t// {}", gc_str);
       }
@@ -2200,6 +2212,19 @@ impl<'a> GroupChoice<'a> {
     }
 
     false
+  }
+
+  /// Whether the formatted choice ends in a comment
+  #[cfg(feature = "ast-comments")]
+  fn ends_in_open_comment(&self) -> bool {
+    match self.group_entries.last() {
+      Some(ge) => ge.0.has_trailing_comments() || ge.1.has_trailing_comments(),
+      None => self
+        .comments_before_grpchoice
+        .as_ref()
+        .map(|c| c.any_non_newline())
+        .unwrap_or(false),
+    }
   }
 
   #[cfg(feature = "ast-comments")]
@@ -2298,6 +2323,11 @@ impl fmt::Display for GroupChoice<'_> {
     }
 
     if self.group_entries.len() == 1 {
+      #[cfg(feature = "ast-comments")]
+      if let Some(comments) = &self.comments_before_grpchoice {
+        gc_str.push_str(&comments.to_string());
+      }
+
       let _ = write!(
         gc_str,
         " {}{}",
